@@ -13,17 +13,19 @@ EXTENDS Naturals, FiniteSets, Sequences, SequencesExt, TLC, Json
 CONSTANTS MaxEntries
 
 NameClasses == {"own", "own2", "wf", "audit", "bak", "gz", "d13", "d15", "prefixx", "unrelated", "alnum",
-                "emptysuffix", "dotted", "dashdate", "commav", "bare", "dotsub", "insub"}
+                "emptysuffix", "dotted", "dashdate", "commav", "bare", "dotsub", "insub", "fracdot", "fraccomma"}
 \* own / own2: <name>.<14 digits> (two different timestamps); wf: <name>.wf.<14 digits>;
 \* audit: <name>.audit.<14 digits>; bak: <name>.bak; gz: <name>.1.gz; d13 / d15: 13 / 15 digits;
 \* prefixx: <name>x.<14 digits>; unrelated: other.txt; alnum: 13 digits and a letter;
 \* emptysuffix: "<name>."; dotted: <name>.<14 digits>.gz; dashdate: <name>-20240101; commav: <name>,v;
 \* bare: <name> itself (these three sort before "<name>." in a directory listing);
 \* dotsub: <name> with its dots replaced by another character, then .<14 digits> (a sibling appender's files);
-\* insub: <name>.<14 digits> inside a sub-directory of the log directory
+\* insub: <name>.<14 digits> inside a sub-directory of the log directory;
+\* fracdot / fraccomma: <name>.<14 digits>.123 / <name>.<14 digits>,5 (what a lenient time parser reads as a fraction)
 OwnClass(c) == c \in {"own", "own2"}
 Kinds == {"file", "dir"}
 Ages  == {"older", "younger",
+          "future",      \* modification time ahead of this machine's clock (file server clock, clock stepped back)
           "rewritten"}   \* young at the first scan, written again afterwards; the second scan runs when its first
                          \* modification time has fallen behind the cut-off - it is still young
 Entry == [name : NameClasses, kind : Kinds, age : Ages]
@@ -37,7 +39,7 @@ vars == <<pop, phase, survivors, survivors2>>
 Init == pop = {} /\ phase = "build" /\ survivors = {} /\ survivors2 = {}
 Add(e) == /\ phase = "build" /\ Cardinality(pop) < MaxEntries
           /\ \A x \in pop : x.name # e.name
-          /\ (e.age = "rewritten" => OwnClass(e.name) /\ e.kind = "file")     \* only there does the age matter
+          /\ (e.age \in {"rewritten", "future"} => OwnClass(e.name) /\ e.kind = "file")     \* only there does the age matter
           /\ pop' = pop \cup {e} /\ UNCHANGED <<phase, survivors, survivors2>>
 Cleanup == /\ phase = "build" /\ pop # {}
            /\ survivors' = { e \in pop : ~Removed(e) } /\ phase' = "cleaned" /\ UNCHANGED <<pop, survivors2>>
@@ -51,7 +53,7 @@ SecondScanKeeps == phase = "cleaned2" => survivors2 = survivors
 CleanupExact == phase \in {"cleaned", "cleaned2"} =>
    /\ \A e \in pop : (e \in survivors) = ~(OwnClass(e.name) /\ e.kind = "file" /\ e.age = "older")
    /\ \A e \in pop : e.kind = "dir" => e \in survivors                 \* never sub-directories
-   /\ \A e \in pop : e.age = "younger" => e \in survivors              \* never files younger than the maximum age
+   /\ \A e \in pop : e.age \in {"younger", "future", "rewritten"} => e \in survivors   \* never files younger than the maximum age
    /\ \A e \in pop : ~OwnClass(e.name) => e \in survivors              \* never files that merely share the prefix
 \* a population with rewritten entries is emitted once, after its second scan
 Emit == ((phase = "cleaned" /\ \A e \in pop : e.age # "rewritten") \/ phase = "cleaned2") =>
